@@ -63,9 +63,22 @@ def session_phase(ex, s):
 
 def monitor(ex, final):
     for s in ex.sessions:
-        sent = {x['tag']: x for x in s.app_sent}
-        sent_order = [x['tag'] for x in s.app_sent]
-        got = received_msgs(s)
+        sent = {x['tag']: x for x in s.app_sent if x['tag'] is not None}
+        sent_order = [x['tag'] for x in s.app_sent if x['tag'] is not None]
+        got_all = received_msgs(s)
+        # empty binary messages carry no tag: they are counted
+        n_empty_sent = sum(1 for x in s.app_sent if x['tag'] is None and x['data'] == b'')
+        empties = [g for g in got_all if g['tag'] is None and g['payload'] == b'']
+        if len(empties) > n_empty_sent:
+            raise V(ex, 'duplicate-delivery' if n_empty_sent else 'unknown-message-delivered',
+                    'empty-binary', 'session %d received %d empty binary messages, %d were sent' % (
+                        s.ord, len(empties), n_empty_sent))
+        for g in empties:
+            if g['via'] == 'upg':
+                raise V(ex, 'message-on-unfinished-upgrade-socket', 'upg',
+                        'session %d: an empty binary message was written to an upgrade socket '
+                        'whose handshake had not completed' % s.ord)
+        got = [g for g in got_all if not (g['tag'] is None and g['payload'] == b'')]
         seen = {}
         for g in got:
             tag = g['tag']
@@ -118,6 +131,8 @@ def monitor(ex, final):
             if len(types) == 16:
                 continue
             for tag in p._sent_done:
+                if tag is None:
+                    continue
                 g = seen.get(tag)
                 if g is not None and g['t'] <= p.t_end:
                     continue
@@ -153,9 +168,16 @@ def check_complete(ex, s, seen):
     if explicit_causes(ex, s):
         return          # the client itself closed or broke the session (CLOSE, protocol error)
     # the client kept reading and the session never ended: everything must have arrived
+    n_empty = sum(1 for x in s.app_sent if x['tag'] is None and x['data'] == b'' and
+                  x['call'].done and x['call'].exc is None)
+    got_empty = sum(1 for g in received_msgs(s) if g['tag'] is None and g['payload'] == b'')
+    if got_empty < n_empty:
+        raise V(ex, 'message-lost', session_phase(ex, s) + '|empty-binary',
+                'session %d never ended and kept reading, but only %d of %d empty binary messages '
+                'arrived' % (s.ord, got_empty, n_empty))
     for x in s.app_sent:
         c = x['call']
-        if not c.done or c.exc is not None:
+        if not c.done or c.exc is not None or x['tag'] is None:
             continue
         if x['tag'] not in seen:
             raise V(ex, 'message-lost', session_phase(ex, s) + '|' + loss_context(ex, s, x),
@@ -185,6 +207,7 @@ PROFILE = {
     # half of the client's messages are answered by the message handler itself (send() from
     # inside the handler, before it returns): replies join the ordinary send stream
     'reactions': [('echo', 50)],
+    'server_empties_pct': 4,     # send(sid, b''): an empty binary message
     'packet_kinds': [('msg', 4), ('pong', 2), ('upgrade', 1)],
     'post_modes': [('pkts', 1)],
     'declared_delta': [0],
